@@ -239,6 +239,16 @@ impl Run {
         self.step(sc.stake(&u[0], big, None, None, None));
         self.step(sc.stake(&u[1], big + 7, None, None, None));
         self.relay_all("ack");
+        // an accounting correction of the LST total alone, at a 1:1 pool (only in runs that watch nothing but
+        // the oracle: the token supply is deliberately left behind)
+        if self.model.on("C15") && self.model.enabled.len() == 1 && self.obs.state_ok && self.obs.n == self.obs.l && self.obs.l > 10 {
+            let (n, l, r) = (self.obs.n, self.obs.l, self.obs.rewards);
+            self.step(sc.breaker(&sc.admin));
+            self.step(sc.resume(n, l - l / 5, r));
+            self.step(sc.breaker(&sc.admin));
+            self.step(sc.resume(n, l, r));
+            self.model.count("lst_only_correction");
+        }
         let coll = self.obs.collector();
         let ch = self.obs.channel();
         self.step(Op::NativeMint { addr: coll.clone(), amount: 999 * k });
